@@ -413,12 +413,14 @@ theorem St.W6BT.onWaitTick {P : Task → Prop} {s t : St} (h : St.W6BT P s t) (w
   unfold St.onWaitTick
   dsimp only
   split
-  · rename_i h0
-    have h1 : St.W6BT P s ((t.addGen (.exc w false)).registerTask (t.wait w).owner
-        ⟨(t.wait w).taskEvent, t.gens.length, some (t.wait w).parentGen⟩) :=
-      St.W6BT.registerTask (h.addGen _) _ _ (hp (by simpa using h0))
-    w6b_t
-  · w6b_t
+  · exact h
+  · split
+    · rename_i h0
+      have h1 : St.W6BT P s (((t.modWait w fun x => { x with timedOut := true }).addGen (.exc w false)).registerTask
+          (t.wait w).owner ⟨(t.wait w).taskEvent, t.gens.length, some (t.wait w).parentGen⟩) :=
+        St.W6BT.registerTask ((h.modWait _ _).addGen _) _ _ (hp (by simpa using h0))
+      w6b_t
+    · w6b_t
 
 
 /-! ## the arms of `step` that can change a task set -/
